@@ -286,13 +286,21 @@ func decodeLayout(l *layout, data []byte) (f *mp4.File, class string) {
 func refTrack(l *layout) uint32 { return l.refTrack }
 
 // checkSidx: after UpdateSidx(add, nz) + Encode, the first sidx must tile the media.
-func checkSidx(l *layout, f *mp4.File, nz bool) {
+func checkSidx(l *layout, f *mp4.File, nz bool) { checkSidxN(l, f, nz, false) }
+
+// checkSidxN: twice = UpdateSidx is called a second time before encoding (hygiene.go class 3)
+func checkSidxN(l *layout, f *mp4.File, nz bool, twice bool) {
 	var err error
 	idx := make(map[mp4.Box]int) // before UpdateSidx inserts a box into f.Children
 	for i, c := range f.Children {
 		idx[c] = i
 	}
-	p := hx.Try(func() { err = f.UpdateSidx(true, nz) })
+	p := hx.Try(func() {
+		err = f.UpdateSidx(true, nz)
+		if err == nil && twice {
+			err = f.UpdateSidx(true, nz)
+		}
+	})
 	if p != "" {
 		fail("File.UpdateSidx", "panic", shortWitness(l), "UpdateSidx panics: "+p)
 		return
@@ -308,6 +316,7 @@ func checkSidx(l *layout, f *mp4.File, nz bool) {
 		return
 	}
 	enc := buf.Bytes()
+	checkEncodeAgain(l, f, enc, "/after-UpdateSidx")
 	sb, ok := scanTop(enc)
 	if !ok {
 		fail("File.Encode", "unscannable-after-UpdateSidx", shortWitness(l), "output is not a sequence of boxes")
@@ -488,11 +497,19 @@ func searchOne(l *layout) {
 		fail("File.Encode", "fragments-order", shortWitness(l), "the moof/mdat boxes of the output are not the input's, byte-identical and in order")
 		return
 	}
+	checkEncodeAgain(l, f, buf.Bytes(), "")
+	checkRedecode(l, data, buf.Bytes())
 	for _, nz := range []bool{false, true} {
 		f2, _ := decodeLayout(l, data)
 		evals++
 		checkSidx(l, f2, nz)
 	}
+	if evals%3 == 0 {
+		f4, _ := decodeLayout(l, data)
+		evals++
+		checkSidxN(l, f4, evals%2 == 0, true)
+	}
+	remember(l, data, buf.Bytes())
 }
 
 func fragmentsInOrder(l *layout, enc []byte) bool {
